@@ -578,6 +578,9 @@ func defaultInitAllow() map[string]bool {
 		m[p] = true
 	}
 	m["unicode"] = false
+	m["errors"] = false
+	m["sync"] = false
+	m["sync/atomic"] = false
 	m["time"] = false
 	m["context"] = false
 	return m
